@@ -17,6 +17,17 @@ Theorem C10_const_out_of_range : forall id op, 50 < id -> const_call op id = Non
 Proof. exact DispatchProofs.const_out_of_range. Qed.
 Print Assumptions C10_const_out_of_range.
 
+(* constants BY NAME: ConstCode<{code_consts::NAME}> performs the code NAME names *)
+Theorem C10_const_by_name : forall c nm op, const_name c = Some nm ->
+  exists cl, named_const_call op c = Some cl /\ same_code op cl (direct_call c) = true.
+Proof. exact DispatchProofs.const_by_name. Qed.
+Print Assumptions C10_const_by_name.
+Theorem C10_published_names_covered :
+  forallb (fun '(nm, _) => existsb (fun c => match const_name c with Some n => String.eqb n nm | None => false end) named_codes)
+          code_consts = true.
+Proof. exact DispatchProofs.published_names_covered. Qed.
+Print Assumptions C10_published_names_covered.
+
 (* the enumeration, for EVERY parameter value (not only the literals of the arms) *)
 Theorem C10_enum : forall op v p, (has_param v = false -> p = 0) ->
   exists cl, enum_call op {| cvar := v; cparam := p |} = Some cl /\
